@@ -23,6 +23,7 @@ type State struct {
 	tmps  map[string]Value         // last value of every evaluated compound expression, by source text
 	allocs []SliceV                // slices made on this path (allocation model)
 	fieldOv map[string]Value       // fields of symbolic structs assigned on this path, by (struct name, key, field)
+	ghostv  map[string]*Term       // current value of the ghost variables changed on this path (`ghostvar`)
 }
 
 func newState() *State {
@@ -50,6 +51,12 @@ func (s *State) clone() *State {
 	n.scope = append([]types.Object(nil), s.scope...)
 	n.path = append([]*Term(nil), s.path...)
 	n.allocs = append([]SliceV(nil), s.allocs...)
+	if s.ghostv != nil {
+		n.ghostv = make(map[string]*Term, len(s.ghostv))
+		for k, v := range s.ghostv {
+			n.ghostv[k] = v
+		}
+	}
 	if s.fieldOv != nil {
 		n.fieldOv = make(map[string]Value, len(s.fieldOv))
 		for k, v := range s.fieldOv {
@@ -682,4 +689,33 @@ func sortedHeapNames(m map[string]*Term) []string {
 	}
 	sort.Strings(ks)
 	return ks
+}
+
+// ghostVar: the current value of a ghost variable (declared `//@ ghostvar name`): an integer that
+// only contracts mention (`gassigns name` on the functions that change it).  Its entry value is
+// the symbol gv.<name>.
+func (c *FuncCtx) ghostVar(st *State, name string) *Term {
+	if t, ok := st.ghostv[name]; ok {
+		return t
+	}
+	return Var("gv."+name, SInt)
+}
+
+func (c *FuncCtx) havocGhosts(st *State, only []string) {
+	names := only
+	if names == nil {
+		for g := range c.prog.GhostVars {
+			names = append(names, g)
+		}
+		sort.Strings(names)
+	}
+	for _, g := range names {
+		if !c.prog.GhostVars[g] {
+			panic(verr("gassigns %s: not a declared ghostvar", g))
+		}
+		if st.ghostv == nil {
+			st.ghostv = map[string]*Term{}
+		}
+		st.ghostv[g] = Var(c.freshName("gv."+g), SInt)
+	}
 }
